@@ -25,6 +25,10 @@ pub struct GenCfg {
   pub replace: bool,
   /// replacement positions like u32::MAX - 1
   pub wild_ops: bool,
+  /// replacement ranges with end < start (outside the domain of the
+  /// model-based properties; only the self-consistency monitors C07 and C19
+  /// switch this on)
+  pub reversed_ops: bool,
   pub boxed: bool,
   /// zero-width segments at end of line / text in consistent maps
   pub zero_width: bool,
@@ -48,6 +52,7 @@ impl GenCfg {
       cached_under_replace: true,
       replace: true,
       wild_ops: true,
+      reversed_ops: false,
       boxed: true,
       zero_width: false,
       original_leaves: true,
@@ -403,16 +408,7 @@ pub fn gen_consistent_map(
       }),
     });
   }
-  let source_root = if allow_root {
-    match rng.below(8) {
-      0 => Some(String::new()),
-      1 => Some("r".to_string()),
-      2 => Some("r/".to_string()),
-      _ => None,
-    }
-  } else {
-    None
-  };
+  let source_root = if allow_root { gen_source_root(rng) } else { None };
   MapSpec {
     segs,
     raw_mappings: None,
@@ -425,9 +421,31 @@ pub fn gen_consistent_map(
   }
 }
 
+/// sourceRoot values: none (mostly), empty, with / without one trailing
+/// slash, and the URL-like roots that end in several slashes.
+pub fn gen_source_root(rng: &mut Rng) -> Option<String> {
+  match rng.below(16) {
+    0 => Some(String::new()),
+    1 => Some("r".to_string()),
+    2 => Some("r/".to_string()),
+    3 => Some("webpack://".to_string()),
+    4 => Some(rng.pick(&["file:///", "d//", "/", "h://x/y/", "a/b"]).to_string()),
+    5 => Some("src".to_string()),
+    _ => None,
+  }
+}
+
 /// A map that may point anywhere: outside the text, outside the tables.
 pub fn gen_wild_map(rng: &mut Rng, text: &str, pool: &mut Pool) -> MapSpec {
   let mut m = gen_consistent_map(rng, text, pool, true, true);
+  // hostile source names: empty (what a JSON null becomes) or absolute
+  if !m.sources.is_empty() && rng.chance(1, 6) {
+    let k = rng.below(m.sources.len());
+    m.sources[k] = rng.pick(&["", "/abs.js", "/"]).to_string();
+    if m.source_root.is_none() && rng.chance(1, 2) {
+      m.source_root = Some(rng.pick(&["r", "r/", "webpack://"]).to_string());
+    }
+  }
   let nlines = crate::model::attr::lines_of(text).len() as u32;
   let extra = rng.range(1, 4);
   for _ in 0..extra {
@@ -574,6 +592,9 @@ pub fn gen_ops(rng: &mut Rng, inner: &str, cfg: &GenCfg, pool: &Pool) -> Vec<Op>
     if end < start {
       std::mem::swap(&mut start, &mut end);
     }
+    if cfg.reversed_ops && start != end && rng.chance(1, 16) {
+      std::mem::swap(&mut start, &mut end);
+    }
     let content = match rng.below(20) {
       0..=1 => String::new(),
       2..=11 => gen_text(rng, 6, cfg.ascii).replace('\n', ""),
@@ -590,7 +611,7 @@ pub fn gen_ops(rng: &mut Rng, inner: &str, cfg: &GenCfg, pool: &Pool) -> Vec<Op>
       _ => "\n".to_string(),
     };
     // rare coincidence: the replacement content equals (a prefix of) the text it replaces
-    let content = if rng.chance(1, 14) && (start as usize) < len {
+    let content = if start <= end && rng.chance(1, 14) && (start as usize) < len {
       let e = (end as usize).min(len);
       let s0 = (start as usize).min(e);
       if rng.chance(1, 2) {
@@ -740,6 +761,12 @@ pub fn gen_combined(rng: &mut Rng, cfg: &GenCfg, pool: &mut Pool) -> Spec {
   // re-target: one source becomes the inner source name
   let inner_idx = rng.below(outer.sources.len()) as u32;
   outer.sources[inner_idx as usize] = name.clone();
+  // with a sourceRoot on the outer map the SourceMapSource is named like the
+  // resolved source (root applied), which is what the library compares with
+  if rng.chance(1, 3) {
+    outer.source_root = gen_source_root(rng);
+  }
+  let name = crate::model::attr::apply_source_root(outer.source_root.as_deref(), &name);
   let content_in_outer = rng.chance(1, 2);
   while outer.contents.len() <= inner_idx as usize {
     outer.contents.push(String::new());
@@ -768,7 +795,11 @@ pub fn gen_combined(rng: &mut Rng, cfg: &GenCfg, pool: &mut Pool) -> Spec {
   let inner = if cfg.wild_maps && rng.chance(1, 3) {
     gen_wild_map(rng, &original_text, pool)
   } else {
-    gen_consistent_map(rng, &original_text, pool, false, false)
+    let mut m = gen_consistent_map(rng, &original_text, pool, false, false);
+    if rng.chance(1, 4) {
+      m.source_root = gen_source_root(rng);
+    }
+    m
   };
   let original = if content_in_outer && rng.chance(1, 2) {
     None
